@@ -181,7 +181,257 @@ def propagate_new_aliases(tree: ast.Module, module: str, known_locals: dict[str,
                 if changed:
                     break
 
+    def _temps(fn, qn: str):
+        # a *new* local that is bound once and read once, in the statement right after its binding (other such bindings may stand in between): the value is written where it
+        # is read.  `ok = a and not b` / `if ok:`  ->  `if a and not b:`;  `lock = get_lock()` / `async with lock:`  ->  `async with get_lock():`.  The value is evaluated
+        # exactly once either way; only its position among the sub-expressions of the reading statement changes, which matters to no rule.
+        known = set(known_locals.get(f'{module}::{qn}', []))
+        changed = True
+        while changed:
+            changed = False
+            stores = _stores(fn)
+            params = {a.arg for a in fn.args.posonlyargs + fn.args.args + fn.args.kwonlyargs} | ({fn.args.vararg.arg} if fn.args.vararg else set()) | ({fn.args.kwarg.arg} if fn.args.kwarg else set())
+            nested_names = {x.id for n in _own(fn) if isinstance(n, FuncNode + (ast.Lambda, ast.ClassDef)) for x in ast.walk(n) if isinstance(x, ast.Name)}
+            loads: dict[str, list[ast.Name]] = {}
+            for n in _own(fn):
+                if isinstance(n, ast.Name) and isinstance(n.ctx, ast.Load):
+                    loads.setdefault(n.id, []).append(n)
+
+            def is_temp_def(st) -> str | None:
+                if isinstance(st, ast.Assign) and len(st.targets) == 1 and isinstance(st.targets[0], ast.Name):
+                    nm, val = st.targets[0].id, st.value
+                elif isinstance(st, ast.AnnAssign) and isinstance(st.target, ast.Name) and st.value is not None:
+                    nm, val = st.target.id, st.value
+                else:
+                    return None
+                if nm in known or nm in params or nm.startswith('__inl_') or nm in nested_names or len(stores.get(nm, [])) != 1 or len(loads.get(nm, [])) != 1:
+                    return None
+                if any(isinstance(x, (ast.Await, ast.Yield, ast.YieldFrom, ast.NamedExpr, ast.Lambda, ast.ListComp, ast.SetComp, ast.DictComp, ast.GeneratorExp, ast.Starred)) for x in ast.walk(val)):
+                    return None
+                if isinstance(val, (ast.Constant, ast.List, ast.Dict, ast.Set, ast.Tuple)):
+                    return None  # containers / literals bound to a name are data the function builds up, not a sub-expression with a name
+                return nm
+
+            for blk in _blocks(fn):
+                for i, st in enumerate(blk):
+                    nm = is_temp_def(st)
+                    if nm is None:
+                        continue
+                    j = i + 1
+                    while j < len(blk) and is_temp_def(blk[j]) is not None and not any(isinstance(x, ast.Name) and x.id == nm for x in ast.walk(blk[j])):
+                        j += 1
+                    if j >= len(blk):
+                        continue
+                    use = loads[nm][0]
+                    reader = blk[j]
+                    rblk, rj = blk, j
+                    while isinstance(reader, ast.Try) and reader.body:  # the first statement a `try:` executes is the first of its body
+                        rblk, rj = reader.body, 0
+                        reader = reader.body[0]
+                    # the read must be in the reader's own header (not inside a nested block of it, where it could run later, repeatedly or not at all)
+                    header = []
+                    if isinstance(reader, (ast.If, ast.While)):
+                        header = [reader.test]
+                    elif isinstance(reader, (ast.For, ast.AsyncFor)):
+                        header = [reader.iter]
+                    elif isinstance(reader, (ast.With, ast.AsyncWith)):
+                        header = [it.context_expr for it in reader.items]
+                    elif isinstance(reader, (ast.Expr, ast.Assign, ast.AnnAssign, ast.AugAssign, ast.Return, ast.Raise, ast.Assert, ast.Delete)):
+                        header = [reader]
+                    if isinstance(reader, ast.While) or not any(any(x is use for x in ast.walk(h)) for h in header):
+                        continue
+                    if any(isinstance(x, (ast.Lambda, ast.ListComp, ast.SetComp, ast.DictComp, ast.GeneratorExp)) and any(y is use for y in ast.walk(x)) for h in header for x in ast.walk(h)):
+                        continue
+                    val = st.value
+                    if (header == [reader] or isinstance(reader, (ast.For, ast.AsyncFor))) and any(isinstance(x, ast.Call) for x in ast.walk(val)):
+                        continue  # the result of a call that a plain statement (or a loop) goes on to use stays a named value (what was dequeued, acquired, looked up): the rules follow it by name
+                    sub = _Subst(nm, val)
+                    if isinstance(reader, (ast.If,)):
+                        reader.test = sub.visit(reader.test)
+                    elif isinstance(reader, (ast.For, ast.AsyncFor)):
+                        reader.iter = sub.visit(reader.iter)
+                    elif isinstance(reader, (ast.With, ast.AsyncWith)):
+                        for it in reader.items:
+                            it.context_expr = sub.visit(it.context_expr)
+                    else:
+                        rblk[rj] = sub.visit(reader)
+                    blk[i] = ast.copy_location(ast.Pass(), st)
+                    log.append(f'{module}:{qn} new single-use local `{nm} = {ast.unparse(val)[:50]}` written where it is read')
+                    changed = True
+                    break
+                if changed:
+                    break
+
+    def _pure_locals(fn, qn: str):
+        # a *new* local bound once to a value computed from local names and constants alone (arithmetic, comparisons, boolean operators, isinstance): every read that follows
+        # in the same block is that value, as long as none of the names it is computed from is rebound there.  `left = n - k` / `if left > 0:` -> `if n - k > 0:`.
+        known = set(known_locals.get(f'{module}::{qn}', []))
+        changed = True
+        while changed:
+            changed = False
+            stores = _stores(fn)
+            params = {a.arg for a in fn.args.posonlyargs + fn.args.args + fn.args.kwonlyargs} | ({fn.args.vararg.arg} if fn.args.vararg else set()) | ({fn.args.kwarg.arg} if fn.args.kwarg else set())
+            nested_names = {x.id for n in _own(fn) if isinstance(n, FuncNode + (ast.Lambda, ast.ClassDef)) for x in ast.walk(n) if isinstance(x, ast.Name)}
+            loads: dict[str, list[ast.Name]] = {}
+            for n in _own(fn):
+                if isinstance(n, ast.Name) and isinstance(n.ctx, ast.Load):
+                    loads.setdefault(n.id, []).append(n)
+
+            def pure(e) -> bool:
+                if isinstance(e, ast.Constant):
+                    return True
+                if isinstance(e, ast.Name):
+                    return e.id not in nested_names
+                if isinstance(e, ast.UnaryOp):
+                    return pure(e.operand)
+                if isinstance(e, ast.BinOp):
+                    return isinstance(e.op, (ast.Add, ast.Sub, ast.Mult)) and pure(e.left) and pure(e.right)
+                if isinstance(e, ast.BoolOp):
+                    return all(pure(v) for v in e.values)
+                if isinstance(e, ast.Compare):
+                    return pure(e.left) and all(pure(v) for v in e.comparators)
+                if isinstance(e, ast.Call) and isinstance(e.func, ast.Name) and e.func.id == 'isinstance' and len(e.args) == 2 and not e.keywords:
+                    return pure(e.args[0]) and all(isinstance(x, (ast.Name, ast.Attribute, ast.Tuple, ast.Load)) for x in ast.walk(e.args[1]))
+                return False
+
+            for blk in _blocks(fn):
+                for i, st in enumerate(blk):
+                    if not (isinstance(st, ast.Assign) and len(st.targets) == 1 and isinstance(st.targets[0], ast.Name)):
+                        continue
+                    nm, val = st.targets[0].id, st.value
+                    if nm in known or nm in params or nm.startswith('__inl_') or nm in nested_names or len(stores.get(nm, [])) != 1 or not loads.get(nm):
+                        continue
+                    if isinstance(val, (ast.Constant, ast.Name)) or not pure(val):
+                        continue
+                    after = [x for s_ in blk[i + 1:] for x in ast.walk(s_)]
+                    after_ids = {id(x) for x in after}
+                    if not all(id(l) in after_ids for l in loads[nm]):
+                        continue
+                    operands = {x.id for x in ast.walk(val) if isinstance(x, ast.Name)}
+                    if any(isinstance(x, ast.Name) and isinstance(x.ctx, (ast.Store, ast.Del)) and x.id in operands for x in after) or any(isinstance(x, ast.ExceptHandler) and x.name in operands for x in after):
+                        continue
+                    sub = _Subst(nm, val)
+                    for k in range(i + 1, len(blk)):
+                        blk[k] = sub.visit(blk[k])
+                    blk[i] = ast.copy_location(ast.Pass(), st)
+                    log.append(f'{module}:{qn} new local `{nm} = {ast.unparse(val)[:50]}` (a value of local names only) written where it is read')
+                    changed = True
+                    break
+                if changed:
+                    break
+
+    def _filtered_loops(fn, qn: str):
+        # a *new* local that holds a filtered list and is only iterated, by the `for` right after it, whose body does not suspend:
+        #   todo = [x for x in IT if P] ; for y in todo: BODY      ->      for y in IT: if P[y/x]: BODY
+        # (the elements BODY runs for are those of IT that satisfy P; without a suspension in BODY nothing else can change P or IT between the filter and the loop)
+        known = set(known_locals.get(f'{module}::{qn}', []))
+        changed = True
+        while changed:
+            changed = False
+            stores = _stores(fn)
+            nested_names = {x.id for n in _own(fn) if isinstance(n, FuncNode + (ast.Lambda, ast.ClassDef)) for x in ast.walk(n) if isinstance(x, ast.Name)}
+            loads: dict[str, list[ast.Name]] = {}
+            for n in ast.walk(fn):
+                if isinstance(n, ast.Name) and isinstance(n.ctx, ast.Load):
+                    loads.setdefault(n.id, []).append(n)
+            for blk in _blocks(fn):
+                for i, st in enumerate(blk[:-1]):
+                    if not (isinstance(st, (ast.Assign, ast.AnnAssign)) and st.value is not None):
+                        continue
+                    tgt = st.targets[0] if isinstance(st, ast.Assign) and len(st.targets) == 1 else getattr(st, 'target', None)
+                    val, loop = st.value, blk[i + 1]
+                    if isinstance(val, ast.Call) and isinstance(val.func, ast.Name) and val.func.id == 'list' and len(val.args) == 1 and not val.keywords:
+                        val = val.args[0]
+                    if not (isinstance(tgt, ast.Name) and isinstance(val, (ast.ListComp, ast.GeneratorExp)) and isinstance(loop, ast.For) and not loop.orelse):
+                        continue
+                    nm = tgt.id
+                    if nm in known or nm in nested_names or len(stores.get(nm, [])) != 1 or len(loads.get(nm, [])) != 1 or not (isinstance(loop.iter, ast.Name) and loop.iter.id == nm):
+                        continue
+                    if len(val.generators) != 1 or val.generators[0].is_async or not val.generators[0].ifs:
+                        continue
+                    gen = val.generators[0]
+                    if not (isinstance(gen.target, ast.Name) and isinstance(val.elt, ast.Name) and val.elt.id == gen.target.id and isinstance(loop.target, ast.Name)):
+                        continue
+                    if any(isinstance(x, (ast.Await, ast.Yield, ast.YieldFrom, ast.AsyncFor, ast.AsyncWith)) for b in loop.body for x in ast.walk(b)):
+                        continue
+                    cond = gen.ifs[0] if len(gen.ifs) == 1 else ast.BoolOp(op=ast.And(), values=list(gen.ifs))
+                    cond = _Subst(gen.target.id, ast.Name(id=loop.target.id, ctx=ast.Load())).visit(copy.deepcopy(cond))
+                    loop.iter = gen.iter
+                    loop.body = [ast.copy_location(ast.If(test=cond, body=loop.body, orelse=[]), loop.body[0])]
+                    blk[i] = ast.copy_location(ast.Pass(), st)
+                    log.append(f'{module}:{qn} new filtered work list `{nm}` and the loop over it read as one filtered loop over `{ast.unparse(gen.iter)[:50]}`')
+                    changed = True
+                    break
+                if changed:
+                    break
+
+    def visit2(body: list[ast.stmt], prefix: str):
+        for st in body:
+            if isinstance(st, FuncNode):
+                qn = f'{prefix}{st.name}'
+                for n in [st] + [n for n in _own(st) if isinstance(n, FuncNode)]:
+                    nq = qn if n is st else f'{qn}.{n.name}'
+                    _temps(n, nq)
+                    _pure_locals(n, nq)
+                    _filtered_loops(n, nq)
+            elif isinstance(st, ast.ClassDef):
+                visit2(st.body, f'{st.name}.')
+            elif isinstance(st, (ast.If, ast.Try)):
+                for f in ('body', 'orelse', 'finalbody'):
+                    visit2(getattr(st, f, []) or [], prefix)
+
     visit(tree.body, '')
+    visit2(tree.body, '')
+
+    class _QueueEmpty(ast.NodeTransformer):
+        # `<..>.event_queue.empty()` is `<..>.event_queue.qsize() == 0`, and its negation `<..>.event_queue.qsize() > 0` (asyncio.Queue: empty() is "no items", qsize() their number)
+        def visit_UnaryOp(self, node):  # noqa: N802
+            self.generic_visit(node)
+            if isinstance(node.op, ast.Not) and isinstance(node.operand, ast.Compare) and getattr(node.operand, '_was_empty', False):
+                node.operand.ops = [ast.Gt()]
+                return node.operand
+            return node
+
+        def visit_Call(self, node):  # noqa: N802
+            self.generic_visit(node)
+            if isinstance(node.func, ast.Attribute) and node.func.attr == 'empty' and not node.args and not node.keywords and isinstance(node.func.value, ast.Attribute) and node.func.value.attr == 'event_queue':
+                new = ast.Compare(left=ast.Call(func=ast.Attribute(value=node.func.value, attr='qsize', ctx=ast.Load()), args=[], keywords=[]), ops=[ast.Eq()], comparators=[ast.Constant(value=0)])
+                new._was_empty = True  # type: ignore[attr-defined]
+                log.append(f'{module}: `{ast.unparse(node)}` read as `{ast.unparse(new)}`')
+                return ast.copy_location(new, node)
+            return node
+
+    _QueueEmpty().visit(tree)
+
+    def _negated(p: ast.AST) -> ast.AST | None:
+        if isinstance(p, ast.UnaryOp) and isinstance(p.op, ast.Not):
+            return p.operand
+        if isinstance(p, ast.Compare) and len(p.ops) == 1 and isinstance(p.ops[0], (ast.NotIn, ast.NotEq, ast.IsNot)):
+            pos = {ast.NotIn: ast.In, ast.NotEq: ast.Eq, ast.IsNot: ast.Is}[type(p.ops[0])]()
+            return ast.copy_location(ast.Compare(left=p.left, ops=[pos], comparators=p.comparators), p)
+        return None
+
+    class _Quantifier(ast.NodeTransformer):
+        # `any(<negated P> for ...)` is `not all(<P> for ...)` (the library itself spells its quantified tests with all())
+        def visit_Call(self, node):  # noqa: N802
+            self.generic_visit(node)
+            if isinstance(node.func, ast.Name) and node.func.id == 'any' and len(node.args) == 1 and not node.keywords and isinstance(node.args[0], (ast.GeneratorExp, ast.ListComp)):
+                pos = _negated(node.args[0].elt)
+                if pos is not None:
+                    gen = ast.copy_location(ast.GeneratorExp(elt=pos, generators=node.args[0].generators), node.args[0])
+                    new = ast.UnaryOp(op=ast.Not(), operand=ast.copy_location(ast.Call(func=ast.Name(id='all', ctx=ast.Load()), args=[gen], keywords=[]), node))
+                    log.append(f'{module}: `{ast.unparse(node)[:70]}` read as `{ast.unparse(new)[:70]}`')
+                    return ast.copy_location(new, node)
+            return node
+
+        def visit_UnaryOp(self, node):  # noqa: N802
+            self.generic_visit(node)
+            if isinstance(node.op, ast.Not) and isinstance(node.operand, ast.UnaryOp) and isinstance(node.operand.op, ast.Not) and isinstance(node.operand.operand, ast.Call) \
+                    and isinstance(node.operand.operand.func, ast.Name) and node.operand.operand.func.id == 'all':
+                return node.operand.operand  # not not all(...) is all(...): a bool either way
+            return node
+
+    _Quantifier().visit(tree)
     if log:
         ast.fix_missing_locations(tree)
     return log
